@@ -191,6 +191,8 @@ bool VM::executeSingle() {
       WordIndex source_off = this->stack.back().data_start;
       this->data[target_off + ret_target] = this->data[source_off + ret_source];
       this->instruction_pointer = this->stack.back().ret_addr;
+      // release the callee's frame (it is the topmost one)
+      this->data.resize(source_off);
       this->stack.pop_back();
       break;
     }
